@@ -26,7 +26,8 @@ TIME_CAP = {'quick': 300, 'thorough': 3600}
 REQUIRED_CLASSES = ['element', 'element-proportion>1', 'substance', 'material-number-fraction', 'material-mass-fraction',
                     'mass-density-given', 'number-density-given', 'with-volume', 'without-volume', 'natural', 'most-abundant',
                     'unit:kg/m3', 'unit:kg/l', 'unit:m-3', 'unit:1/l', 'unit:l', 'unit:m3', 'dict-form', 'string-form',
-                    'reread-after-in-place-conversion', 'composition-changed-by-add:existing', 'composition-changed-by-add:new']
+                    'reread-after-in-place-conversion', 'composition-changed-by-add:existing', 'composition-changed-by-add:new',
+                    'operand-of-a-sum-that-is-topped-up:right', 'operand-of-a-sum-that-is-topped-up:left']
 REQUIRED_MONITORS = ['mode_twin_tables', 'identity_checks', 'component_rows_checked', 'unit_twins_compared', 'inplace_conversion_rereads', 'add_after_construction_checks', 'table_hygiene_checks']
 ASSUMPTIONS = ['component masses m_i are those reported by data_components() / Element.component_mass (their correctness is C10)',
                'the gram value of 1 Da is the unit table magnitude; unit factors of the twins are exact SI relations of the model '
@@ -451,6 +452,38 @@ def _run_case(case, ctx):
                 devs.append(dev('after-add(%s-component):%s' % (what, mech), dict(detail, added=[k0 if what == 'existing' else newkey, step], components=am1)))
         except Exception as e:
             devs.append(dev('add-after-construction-raises:' + type(e).__name__, dict(exc=repr(e)[:300], components=am0, what=what)))
+    # ---- the object as an operand of a sum that is topped up afterwards: whatever is done to the SUM, the operand (with its
+    #      density and volume attached) reports what it reported before - its own identities are re-read from the operand
+    if case['kind'] in ('substance', 'material') and not mass_mode and not devs:
+        am0 = given_amounts(case)
+        other = 'Kr' if case['kind'] == 'substance' else 'Kr'
+        if other not in am0 and R.ident_data(T, ('Kr', None, 0), natural) is not None:
+            try:
+                M = ctx['M']
+                for side in ('right', 'left'):
+                    obj3 = build(ctx, case, *base_units)
+                    if case['kind'] == 'substance':
+                        lone = M.Substance('Kr2', natural=natural)
+                    else:
+                        lone = M.Material({'Kr': 1.0}, natural=natural, norm_type=M.Norm.NUMBER_FRACTION)
+                    total = (lone + obj3) if side == 'right' else (obj3 + lone)
+                    for k in list(am0)[:3]:
+                        total.add(k, 2.0 if case['kind'] == 'substance' else 0.5)
+                    total.add('Kr' if case['kind'] == 'substance' else 'Kr', 1.0)
+                    o5 = observe(obj3, case)
+                    classes.add('operand-of-a-sum-that-is-topped-up:' + side)
+                    mon['operand_after_sum_add_checks'] = mon.get('operand_after_sum_add_checks', 0) + 1
+                    f5 = flat(o5)
+                    diff = [k for k in fo if k not in f5 or (fo[k] is None) != (f5[k] is None) or (fo[k] is not None and not close(fo[k], f5[k], RTOL))]
+                    diff += [k for k in f5 if k not in fo]
+                    if diff:
+                        d0 = diff[0]
+                        devs.append(dev('%s-operand-changes-after-add-on-the-sum' % side, dict(differing=diff[:6], before=fo.get(d0), after=f5.get(d0), components=am0)))
+                        break
+                    for mech, detail in check_identities(case, o5, T, devs, mon):
+                        devs.append(dev('%s-operand-after-add-on-the-sum:%s' % (side, mech), dict(detail, components=am0)))
+            except Exception as e:
+                devs.append(dev('sum-with-operand-raises:' + type(e).__name__, dict(exc=repr(e)[:300], components=am0)))
     # ---- unit twins
     for du, vu in case['units']:
         classes.add('unit:' + du)
